@@ -493,7 +493,8 @@ fn configure_build(
 
     // build application file name
     let outfile = Utf8PathBuf::from(
-        nested_env::expand("${outfile}", &global_env_flattened, IfMissing::Empty).unwrap(),
+        nested_env::expand("${outfile}", &global_env_flattened, IfMissing::Empty)
+            .context("expanding \"${outfile}\"")?,
     );
 
     let mut objdir = build_dir.clone();
@@ -631,7 +632,8 @@ fn configure_build(
             // the so-far stored `download_dirs`. Any dependency of this module
             // would have stored it's srcdir there.
             let srcdir = Utf8PathBuf::from(
-                nested_env::expand_eval(srcdir, &flattened_env, IfMissing::Ignore).unwrap(),
+                nested_env::expand_eval(srcdir, &flattened_env, IfMissing::Ignore)
+                    .with_context(|| format!("module \"{}\": expanding srcdir", module.name))?,
             );
             if let Some(tagfile) = download_dirs.get_containing_path(&srcdir) {
                 src_tagfile = Some(tagfile);
@@ -729,8 +731,8 @@ fn configure_build(
             //
             // ... becomes `echo foo && echo bar` as ninja build command.
             let build_cmd = &build.cmd.join(" && ");
-            let expanded =
-                nested_env::expand_eval(build_cmd, &flattened_env, IfMissing::Empty).unwrap();
+            let expanded = nested_env::expand_eval(build_cmd, &flattened_env, IfMissing::Empty)
+                .with_context(|| format!("module \"{}\": expanding build cmd", module.name))?;
 
             // create custom build ninja rule
             let rule = NinjaRuleBuilder::default()
@@ -751,28 +753,26 @@ fn configure_build(
                     // 1. determine full file path (relative to project root)
                     let mut srcpath = srcdir.clone();
                     srcpath.push(source);
-                    Utf8PathBuf::from(
-                        nested_env::expand_eval(srcpath, &flattened_env, IfMissing::Empty).unwrap(),
-                    )
+                    nested_env::expand_eval(srcpath, &flattened_env, IfMissing::Empty)
+                        .map(Utf8PathBuf::from)
                 })
-                .collect_vec();
+                .collect::<Result<Vec<_>, _>>()
+                .with_context(|| format!("module \"{}\": expanding sources", module.name))?;
 
             // Vec<Utf8PathBuf> -> Cow<&Utf8Path>
             let sources = sources.iter().map(|x| Cow::from(x.as_ref())).collect_vec();
 
             let mut hasher = DefaultHasher::new();
             // collect any specified outs
-            let outs = build.out.as_ref().map_or_else(std::vec::Vec::new, |outs| {
-                outs.iter()
-                    .map(|out| {
-                        let out = Utf8PathBuf::from(
-                            nested_env::expand_eval(out, &flattened_env, IfMissing::Empty).unwrap(),
-                        );
-                        out.hash(&mut hasher);
-                        Cow::from(out)
-                    })
-                    .collect_vec()
-            });
+            let mut outs = Vec::new();
+            for out in build.out.iter().flatten() {
+                let out = Utf8PathBuf::from(
+                    nested_env::expand_eval(out, &flattened_env, IfMissing::Empty)
+                        .with_context(|| format!("module \"{}\": expanding out", module.name))?,
+                );
+                out.hash(&mut hasher);
+                outs.push(Cow::from(out));
+            }
             let outs_hash = hasher.finish();
 
             // 4. render ninja "build:" snippet and add to this build's
@@ -851,7 +851,8 @@ fn configure_build(
 
                 // expand variables in source path
                 let srcpath = Utf8PathBuf::from(
-                    nested_env::expand_eval(srcpath, &flattened_env, IfMissing::Empty).unwrap(),
+                    nested_env::expand_eval(srcpath, &flattened_env, IfMissing::Empty)
+                        .with_context(|| format!("module \"{}\": expanding source", module.name))?,
                 );
 
                 // 2. find ninja rule by lookup of the source file's extension
